@@ -63,8 +63,9 @@ def check(ctx):
     fe = q.fn1(P, "rust_value::fields_example", D)
     ex_names = set()
     if fe is not None:
+        Nfe = Norm(fe)
         for node, items, kind, parent in T.find_templates(fe["body"]):
-            text = T.render_pos(items)
+            text = T.render_pos(T.flatten(items, Nfe))      # a hoisted `quote!(::core::marker::PhantomData)` stands for its tokens
             m = re.fullmatch(r"(\w+) : :: core :: marker :: PhantomData", text)
             if m:
                 ex_names.add(m.group(1))
